@@ -240,6 +240,19 @@ func NewPool(r *Rng, nRandom int) *Pool {
 		}
 	}
 
+	// points with a vanishing coordinate or a vanishing first-level sum of the formulas (x = 0, x = -1, y = -1 via
+	// the negation of the y = 1 point): classic exceptional inputs of incomplete formula sets
+	for _, x := range []*big.Int{big.NewInt(0), new(big.Int).Sub(oracle.P, big.NewInt(1))} {
+		if p, ok := oracle.LiftX(x, 0); ok {
+			pl.add(p, "zero-coordinate")
+			pl.add(oracle.Neg(p), "zero-coordinate")
+		}
+	}
+
+	if p, ok := oracle.LiftY(new(big.Int).Sub(oracle.P, big.NewInt(1))); ok && oracle.OnCurve(p) {
+		pl.add(p, "zero-coordinate")
+	}
+
 	// x just below p
 	for d, found := int64(1), 0; found < 4; d++ {
 		if p, ok := oracle.LiftX(new(big.Int).Sub(oracle.P, big.NewInt(d)), uint(d&1)); ok {
